@@ -55,7 +55,8 @@ Proof. apply contains_wall_clock. Qed.
 
 Lemma apply_list_spec known se ids :
   apply_list known se ids =
-  {| se_rules := se_rules se ++ filter (id_known known) ids; se_bsvc := se_bsvc se |}.
+  {| se_rules := se_rules se ++ filter (id_known known) ids; se_bsvc := se_bsvc se;
+     se_filtering := se_filtering se |}.
 Proof.
   unfold apply_list, set_rules. f_equal.
   generalize (se_rules se) as acc. induction ids as [|x ids IH]; intros acc; cbn [fold_left filter].
@@ -69,7 +70,8 @@ Qed.
     verdict of the stored schedule. *)
 Lemma apply_blocked_services_spec zoff known g t se :
   apply_blocked_services zoff known g t se =
-  {| se_rules := apply known g (paused zoff (bs_sched g) t); se_bsvc := se_bsvc se |}.
+  {| se_rules := apply known g (paused zoff (bs_sched g) t); se_bsvc := se_bsvc se;
+     se_filtering := se_filtering se |}.
 Proof.
   unfold apply_blocked_services, apply. destruct (paused zoff (bs_sched g) t); cbn [negb].
   - reflexivity.
@@ -89,15 +91,14 @@ Lemma apply_additional_filtering_spec zoff known g c t1 t2 se :
 Proof.
   unfold apply_additional_filtering. rewrite apply_blocked_services_spec.
   unfold apply_client_filtering, own_list.
-  destruct c as [[own cb]|]; cbn [cl_use_own cl_bsvc].
-  - destruct own; cbn [se_bsvc se_rules].
-    + rewrite clone_bsvc_id. destruct (paused zoff (bs_sched cb) t2); cbn [negb].
-      * reflexivity.
-      * rewrite apply_list_spec. reflexivity.
-    + destruct (se_bsvc se) as [b|].
-      * destruct (paused zoff (bs_sched b) t2); cbn [negb]; [reflexivity|].
-        rewrite apply_list_spec. reflexivity.
-      * cbn [se_rules]. unfold apply. reflexivity.
+  destruct c as [[os fl own cb]|]; cbn [cl_use_own cl_bsvc cl_use_own_settings cl_filtering].
+  - destruct own, os; cbn [negb se_bsvc se_rules].
+    1,2: rewrite clone_bsvc_id; destruct (paused zoff (bs_sched cb) t2); cbn [negb];
+         [reflexivity|rewrite apply_list_spec; reflexivity].
+    1,2: destruct (se_bsvc se) as [b|];
+         [destruct (paused zoff (bs_sched b) t2); cbn [negb]; [reflexivity|];
+          rewrite apply_list_spec; reflexivity
+         |cbn [se_rules]; unfold apply; reflexivity].
   - cbn [se_bsvc]. destruct (se_bsvc se) as [b|].
     + destruct (paused zoff (bs_sched b) t2); cbn [negb]; [reflexivity|].
       rewrite apply_list_spec. reflexivity.
@@ -218,7 +219,7 @@ Definition ex_global : bsvc :=
      bs_sched := {| sc_zone := [85]%N; sc_days := repeat zero_range 7 |} |}.
 (** A client pausing 09:00-17:00 every day in a zone at +05:30. *)
 Definition ex_client : client :=
-  {| cl_use_own := true;
+  {| cl_use_own_settings := false; cl_filtering := true; cl_use_own := true;
      cl_bsvc := {| bs_ids := [[98]]%N;
                    bs_sched := {| sc_zone := [75]%N;
                                   sc_days := repeat {| dr_start := 9 * ns_hour; dr_end := 17 * ns_hour |} 7 |} |} |}.
@@ -261,3 +262,117 @@ Proof.
   - apply paused_in_pause. vm_compute. reflexivity.
   - vm_compute. discriminate.
 Qed.
+
+(** * The two switches of a persistent client
+
+    [UseOwnBlockedServices] (use_global_blocked_services negated) alone
+    decides which list and schedule a request of the client gets;
+    [UseOwnSettings] (use_global_settings negated) alone decides whose general
+    settings it gets. *)
+
+(** Own list under own schedule iff the client does not use the global
+    blocked services. *)
+Lemma client_request_services zoff known g c t1 t2 :
+  request_services zoff known g (Some c) t1 t2 =
+  if cl_use_own c
+  then (if paused zoff (bs_sched (cl_bsvc c)) t2 then []
+        else filter (id_known known) (bs_ids (cl_bsvc c)))
+  else (if paused zoff (bs_sched g) t1 then [] else filter (id_known known) (bs_ids g)).
+Proof.
+  rewrite request_services_spec. unfold services_spec, own_list. destruct (cl_use_own c); reflexivity.
+Qed.
+
+Lemma own_services_independent_of_own_settings zoff known g c c' t1 t2 :
+  cl_use_own c = cl_use_own c' -> cl_bsvc c = cl_bsvc c' ->
+  request_services zoff known g (Some c) t1 t2 = request_services zoff known g (Some c') t1 t2.
+Proof. intros H1 H2. rewrite !client_request_services, H1, H2. reflexivity. Qed.
+
+(** In particular flipping use_global_settings changes nothing. *)
+Definition with_own_settings (b f : bool) (c : client) : client :=
+  {| cl_use_own_settings := b; cl_filtering := f; cl_use_own := cl_use_own c; cl_bsvc := cl_bsvc c |}.
+
+Lemma flip_own_settings_keeps_services zoff known g c b f t1 t2 :
+  request_services zoff known g (Some (with_own_settings b f c)) t1 t2 =
+  request_services zoff known g (Some c) t1 t2.
+Proof. apply own_services_independent_of_own_settings; reflexivity. Qed.
+
+(** The other direction: the general settings follow [UseOwnSettings] only. *)
+Lemma request_filtering_spec zoff known gf g c t1 t2 :
+  request_filtering zoff known gf g c t1 t2 =
+  match c with
+  | Some c => if cl_use_own_settings c then cl_filtering c else gf
+  | None => gf
+  end.
+Proof.
+  unfold request_filtering, apply_additional_filtering. rewrite apply_blocked_services_spec.
+  unfold apply_client_filtering, settings_of.
+  destruct c as [[os fl own cb]|]; cbn [cl_use_own cl_bsvc cl_use_own_settings cl_filtering se_bsvc].
+  - destruct own, os; cbn [negb se_bsvc se_filtering se_rules];
+      try (destruct (paused zoff (bs_sched (clone_bsvc cb)) t2); cbn [negb];
+           rewrite ?apply_list_spec; reflexivity);
+      reflexivity.
+  - reflexivity.
+Qed.
+
+(** The variant with the early return first (seeded change C18-I). *)
+Definition apply_additional_filtering_c18i zoff known (g : bsvc) (c : option client) (t1 t2 : Z)
+    (se : settings) : settings :=
+  let se := apply_blocked_services zoff known g t1 se in
+  let se := apply_client_filtering_c18i c se in
+  match se_bsvc se with
+  | Some b =>
+      let se := set_rules se [] in
+      if negb (paused zoff (bs_sched b) t2) then apply_list known se (bs_ids b) else se
+  | None => se
+  end.
+
+(** A client with own blocked services, in its own pause, that uses the
+    global general settings, and a non-empty global list that is not in
+    pause. *)
+Definition ex_client_global_settings : client := with_own_settings false true ex_client.
+
+Lemma early_return_order_refuted :
+  exists zoff known g c t,
+    cl_use_own c = true /\ cl_use_own_settings c = false /\
+    in_pause zoff (bs_sched (cl_bsvc c)) t /\
+    ~ in_pause zoff (bs_sched g) t /\ filter (id_known known) (bs_ids g) <> [] /\
+    se_rules (apply_additional_filtering_c18i zoff known g (Some c) t t fresh_settings)
+      = filter (id_known known) (bs_ids g) /\
+    request_services zoff known g (Some c) t t = [].
+Proof.
+  exists ex_zoff, ex_known, ex_global, ex_client_global_settings, (4 * ns_hour).
+  split; [reflexivity|]. split; [reflexivity|]. split.
+  { apply paused_in_pause. vm_compute. reflexivity. }
+  split.
+  { intros H. apply paused_in_pause in H. vm_compute in H. discriminate. }
+  split; [vm_compute; discriminate|]. split; vm_compute; reflexivity.
+Qed.
+
+(** The variant agrees with the code exactly on the clients whose two
+    switches coincide or who keep the global blocked services. *)
+Lemma early_return_order_differs_only_there zoff known g c t1 t2 se :
+  (cl_use_own c = false \/ cl_use_own_settings c = true) ->
+  se_rules (apply_additional_filtering_c18i zoff known g (Some c) t1 t2 se) =
+  se_rules (apply_additional_filtering zoff known g (Some c) t1 t2 se).
+Proof.
+  unfold apply_additional_filtering_c18i, apply_additional_filtering,
+    apply_client_filtering_c18i, apply_client_filtering.
+  destruct c as [os fl own cb]; cbn [cl_use_own cl_use_own_settings cl_bsvc cl_filtering].
+  intros [E|E]; rewrite E; [destruct os|destruct own]; reflexivity.
+Qed.
+
+(** Non-vacuity: the four combinations of the two switches. *)
+Lemma ex_four_combinations :
+  let req b own t := request_services ex_zoff ex_known ex_global
+                       (Some {| cl_use_own_settings := b; cl_filtering := false;
+                                cl_use_own := own; cl_bsvc := cl_bsvc ex_client |}) t t in
+  req false true (4 * ns_hour) = [] /\ req true true (4 * ns_hour) = [] /\
+  req false true (12 * ns_hour) = [[98]]%N /\ req true true (12 * ns_hour) = [[98]]%N /\
+  req false false (4 * ns_hour) = [[97]; [98]]%N /\ req true false (4 * ns_hour) = [[97]; [98]]%N /\
+  request_filtering ex_zoff ex_known true ex_global
+    (Some {| cl_use_own_settings := true; cl_filtering := false; cl_use_own := false;
+             cl_bsvc := cl_bsvc ex_client |}) 0 0 = false /\
+  request_filtering ex_zoff ex_known true ex_global
+    (Some {| cl_use_own_settings := false; cl_filtering := false; cl_use_own := true;
+             cl_bsvc := cl_bsvc ex_client |}) 0 0 = true.
+Proof. repeat split; vm_compute; reflexivity. Qed.
